@@ -24,11 +24,13 @@ TS = ["2024-01-02T03:04:05Z", "1970-01-01T00:00:00Z", "2038-12-28T23:59:59Z", "0
       "2024-01-02T03:04:05+02:00", "2024-01-02T03:04:05-08:00", "2024-01-02T03:04:05+00:00", "2024-01-02T03:04:05.25Z", "2024-01-02T23:30:00+05:30"]
 BOUND = {"u8": [0, 1, 100, U8], "u32": [0, 1, U32], "u64": [0, 1, 2 ** 32, U64], "usize": [0, 1, U64],
          "secs": [0, 1, 5, 4194303], "ms": [0, 1, 500, 999, 1000, 123456, 4194303999]}
-BAD_UINT = ["", "-1", "abc", "1.5", " 1", "1 ", "0x10", "١", "9" * 400, "1_0", "1e2", "+", "-", "++1", "1+", "１", "0b1", "1\t"]
+BAD_UINT = ["", "-1", "abc", "1.5", " 1", "1 ", "0x10", "١", "9" * 400, "1_0", "1e2", "+", "-", "++1", "1+", "１", "0b1", "1\t",
+            # numbers that come out small again when an accumulator of some width wraps around
+            str(2 ** 64 + 50), str(5 * 2 ** 64 + 7), "9" * 20, "1" + "0" * 20, str(2 ** 128 + 3), str(2 ** 63 * 3), "0" * 30 + str(2 ** 64)]
 # texts that are not numbers although each half of them might look like one to a "fast path"
 BAD_FLOAT = ["12.+34", "12.-34", "+12.+34", "1.2.3", "1..2", "1. 5", "1 .5", "1.5 ", "1_000.0", "0x1p3", "1.5f", "1,500", "٣.٥", "1.0e", "e5",
              "--1", "+-1", "1.+00", "0.-00", ".+5", "12.３４", "12.34\t", "\t12.34"]
-BAD = {"u8": BAD_UINT + [str(U8 + 1)], "u32": BAD_UINT + [str(U32 + 1)], "u64": BAD_UINT + [str(U64 + 1)],
+BAD = {"u8": BAD_UINT + [str(U8 + 1), str(2 ** 8 + 7), str(2 ** 16 + 7), str(2 ** 32 + 7), "0256"], "u32": BAD_UINT + [str(U32 + 1), str(2 ** 32 + 7), str(2 ** 40)], "u64": BAD_UINT + [str(U64 + 1)],
        # ... including the words that are valid for ANOTHER field (a value of single is not a value of repeat, and so on)
        "usize": BAD_UINT + [str(U64 + 1)], "bool": ["", "2", "true", "01", "yes", "-1", "oneshot", "false", "on", "off", "no", "1 ", " 1", "0x1", "play", "10", "00"],
        "state": ["", "PLAY", "playing", "paused", "stopped", "0", "1", "oneshot", "Play", " play", "play ", "play\r"],
@@ -214,6 +216,11 @@ def gen(ctx):
         pl = [(rng.choice(STRS), rng.choice(TS)) for _ in range(rng.choice([0, 1, 2, 5]))]
         fields = [x for n_, ts in pl for x in (("playlist", n_), ("Last-Modified", ts))]
         add("playlists", "GetPlaylists", None, fields, "ok playlists [" + ",".join(f"{hx(a)}@{hx(b_)}" for a, b_ in pl) + "]")
+    # names that are legal but unusual: empty (a file called ".m3u"), blanks only, with '=' ':' — alone, first, between others, last
+    for odd in ["", " ", "  x ", "a: b", "=", "Last-Modified", "playlist"]:
+        for pl in ([(odd, TS[0])], [(odd, TS[0]), ("b", TS[-1])], [("a", TS[0]), (odd, TS[-1]), ("c", TS[0])], [("a", TS[0]), (odd, TS[-1])], [(odd, TS[0]), (odd, TS[0])]):
+            fields = [x for n_, ts in pl for x in (("playlist", n_), ("Last-Modified", ts))]
+            add("playlists-odd-names", "GetPlaylists", None, fields, "ok playlists [" + ",".join(f"{hx(a)}@{hx(b_)}" for a, b_ in pl) + "]")
     for bad in ["", "yesterday", "1700000000", "2024-01-02", "x024-01-02T03:04:05Z"]:
         add("playlists-domain", "GetPlaylists", None, [("playlist", "p"), ("Last-Modified", bad)], "err invalid Last-Modified")
     # ---- stickers: values containing '=' survive; find pairs each sticker with the preceding file
